@@ -240,7 +240,7 @@ def _nested_interface(gdesc: dict, ginfo: dict) -> dict:
 
 # ---------------------------------------------------------------- gates
 
-def gen_gated_dag(rng: random.Random, *, max_nodes: int = 8, p_closed: float = 0.3, allow_mutex: bool = True) -> dict:
+def gen_gated_dag(rng: random.Random, *, max_nodes: int = 8, p_closed: float = 0.3, allow_mutex: bool = True, allow_gate_signal: bool = False) -> dict:
     """Acyclic program with if/else and multi-way gates in front of groups of nodes.
 
     Gates read integer run-time inputs or integer upstream values; targets are later nodes (or END / None /
@@ -334,6 +334,16 @@ def gen_gated_dag(rng: random.Random, *, max_nodes: int = 8, p_closed: float = 0
                 gate = {"name": gname, "kind": "route", "params": [[src, None]], "targets": targets,
                         "multiTarget": multi, "fallback": fallback, "defaultOpen": default_open,
                         "body": {"b": "table", "rows": rows, "dflt": dflt}}
+            if allow_gate_signal and rng.random() < 0.25:
+                # the gate also emits an ordering signal that one of its own targets waits for: gate and target are then joined
+                # by an ordering edge as well as by the control relation
+                sig = names.fresh("s")
+                gate["emits"] = [sig]
+                br = rng.choice(branches)
+                if rng.random() < 0.5:
+                    br["waitFor"] = [sig]
+                else:
+                    br["params"] = br["params"] + [[sig, None]]      # the signal consumed as an ordinary input (a data edge gate -> target)
             nodes.append(gate)
             nodes.extend(branches)
             i += 1 + n_br
@@ -354,11 +364,12 @@ def gen_gated_dag(rng: random.Random, *, max_nodes: int = 8, p_closed: float = 0
 
 # ---------------------------------------------------------------- loops
 
-def gen_loop(rng: random.Random, *, max_n: int = 6) -> dict:
+def gen_loop(rng: random.Random, *, max_n: int = 6, allow_nested_body: bool = False) -> dict:
     """Gate-driven loop families (state gate / signal gate / exit node / accumulator)."""
     names = Names()
     family = rng.choice(["state", "state", "signal", "exit", "accum"])
     separate_emitter = False
+    two_acc = False
     k = rng.randint(1, 3)               # body length
     n = rng.randint(0, max_n)           # iterations dictated by the gate: loop while x < n
     x0 = rng.randint(0, 2)
@@ -389,6 +400,11 @@ def gen_loop(rng: random.Random, *, max_n: int = 6) -> dict:
     if family == "accum":
         # ungated accumulator fed by the loop variable: runs once per new x
         nodes.append(_fn_node("acc", [["messages", None], [x, None]], ["messages"], {"b": "append"}))
+        if rng.random() < 0.5:
+            # a second accumulator of the same name, ordered after the first by a signal (two self-accumulating producers of one value)
+            two_acc = True
+            nodes[-1]["emits"] = ["acc_done"]
+            nodes.append(_fn_node("acc2", [["messages", None], [x, None]], ["messages"], {"b": "append"}, waitFor=["acc_done"]))
     gate_wait = ["turn_done"] if family == "signal" else []
     if rng.random() < 0.5 and exit_target == "__END__" or family == "exit":
         gate = {"name": "gate", "kind": "ifelse", "params": [[x, None]], "targets": [first, exit_target],
@@ -404,9 +420,19 @@ def gen_loop(rng: random.Random, *, max_n: int = 6) -> dict:
     if family == "accum":
         values.append(["messages", {"l": []}])
     iters = max(0, n - x0)
+    program = [{"name": "g0", "nodes": nodes, "bound": []}]
+    nested_body = False
+    if allow_nested_body and family in ("state", "exit") and rng.random() < 0.3:
+        # the first body node lives in a nested graph: every iteration of the outer loop starts an inner run
+        nested_body = True
+        b1 = next(nd for nd in nodes if nd["name"] == "b1")
+        inner = {"name": "inner", "nodes": [b1], "bound": []}
+        wrapper = {"name": "b1", "kind": "graph", "inner": 0}
+        outer_nodes = [wrapper if nd is b1 else nd for nd in nodes]
+        program = [inner, {"name": "g1", "nodes": outer_nodes, "bound": []}]
     # supersteps needed: (k+1) per iteration + final gate evaluation (+ exit node)
-    return {"program": [{"name": "g0", "nodes": nodes, "bound": []}], "values": values,
-            "loop": {"family": family, "k": k, "n": n, "x0": x0, "iters": iters, "defaultOpen": default_open, "separateEmitter": separate_emitter}}
+    return {"program": program, "values": values,
+            "loop": {"nestedBody": nested_body, "family": family, "k": k, "n": n, "x0": x0, "iters": iters, "defaultOpen": default_open, "separateEmitter": separate_emitter, "twoAcc": two_acc}}
 
 
 def gen_fed_cascade(rng: random.Random) -> dict:
@@ -554,6 +580,15 @@ def gen_map_node(rng: random.Random) -> dict:
         values.append([cur["c"], rand_value(rng)])
     rng.shuffle(values)
     c = {"program": [inner, outer], "values": values}
+    if body["b"] == "failGe" and rng.random() < 0.7:
+        # several items fail, each with its own error: in raise mode the FIRST failing item (input order) decides, whatever finishes first
+        gn["errMode"] = "raise"
+        gn["mapMode"] = "zip"
+        ln = rng.randint(3, 5)
+        body["k"] = rng.randint(1, 3)
+        for v in values:
+            if v[0] in gn["mapOver"]:
+                v[1] = {"l": rng.sample(range(0, 8), ln)} if v[0] == cur["x"] else {"l": [rng.randint(0, 4) for _ in range(ln)]}
     return with_cfg(rng, c, outputs=outs + ["fin"])
 
 
